@@ -209,6 +209,17 @@ class ProgramIndex:
                 modname = modname[: -len(".__init__")]
             m = ModuleInfo(modname, path, rel, tree, src)
             self.modules[modname] = m
+        from .normalize import specialise_reflective_names
+
+        trees_ = {k: m.tree for k, m in self.modules.items()}
+        self.normalised = specialise_reflective_names(trees_)
+        from .normalize import expand_getattr_dispatch
+
+        self.normalised += expand_getattr_dispatch(trees_)
+        from .normalize import expand_callable_tables
+
+        self.normalised += expand_callable_tables(trees_)
+        for m in self.modules.values():
             self._index_module(m)
         self.digest = digest.hexdigest()
         if len(self.modules) < 40:
